@@ -64,6 +64,16 @@ mod verif_kani {
     }
     //@family name=c05_rt fn=c05_rt props=C05 kind=family unwind=max(22,W//8+4) W=q:1,2,7,8,9,15,16,17,31,32,33,63,64,65,127,128;t:1-128 O=0,1
 
+    // ---- C08: widths beyond 128 bits (outside C05: the value is an i128) still pack without a panic into W bits ----
+    fn c08_from_int_wide<const W: usize, const O: usize>() {
+        let val: i128 = kani::any();
+        let bs = Bitstr::from_int(val, W, ord(O));
+        assert!(bs.len() == W);
+        assert!(bs.start() == 0);
+        std::mem::forget(bs);
+    }
+    //@family name=c08_from_int_wide fn=c08_from_int_wide props=C08 kind=family unwind=W//8+4 W=q:129,136,200,256;t:129-160,192,200,256 O=0,1
+
     // ---- C05: the decoded number is a function of the bit sequence alone (any offset, any stale bits) ----
     fn c05_dec<const W: usize, const K: usize, const O: usize, const NB: usize>() {
         let bytes: [u8; NB] = kani::any();
